@@ -247,7 +247,7 @@ def home_cases(ctx, shard, nshards):
     idx = 0
     for name in picks:
         for style in ("absolute", "relative", "relative-nested", "tilde", "trailing-slash", "decoy-env",
-                      "copy-in-default-home"):
+                      "copy-in-default-home", "blanks-in-path", "punctuation-in-path"):
             if idx % nshards == shard:
                 yield dict(name=name, style=style)
             idx += 1
@@ -293,6 +293,11 @@ def home_body(ctx, case):
             "relative-nested": (os.path.join("project-data", "tw"), os.path.join(work, "project-data", "tw")),
             "tilde": (os.path.join("~", "tw-cache"), os.path.join(home, "tw-cache")),
             "trailing-slash": (os.path.join(root, "slash-cache") + os.sep, os.path.join(root, "slash-cache")),
+            # the value names a directory: it is not a shell word, a URL or a format string
+            "blanks-in-path": (os.path.join(root, "shared cache", "traffic weaver"),
+                               os.path.join(root, "shared cache", "traffic weaver")),
+            "punctuation-in-path": (os.path.join(root, "daten #1 (tw)", "it's 100% {cache}"),
+                                        os.path.join(root, "daten #1 (tw)", "it's 100% {cache}")),
         }[case["style"]]
         os.environ["TRAFFIC_WEAVER_DATA"] = value
         env = None
